@@ -3,7 +3,37 @@ let rec nat_of_int n = if n <= 0 then O else S (nat_of_int (n - 1))
 let rec int_of_nat = function O -> 0 | S k -> 1 + int_of_nat k
 let ints s = if s = "-" || s = "" then [] else List.map int_of_string (String.split_on_char '.' s)
 let parse_dag s = Array.of_list (List.map ints (String.split_on_char ',' s))
+(* peel <peel table v=p,v=p> <number of refs> <ops joined by ';'>
+     ops: s<r>=<v> (loose write), d<r> (delete), a<r>=<v>,<r>=<v> (add_packed_refs), p (pack_refs all), g (git pack-refs --all)
+   answer, per operation: P| or N| (is the operation one the theorem allows: no tag value put into packed-refs by dulwich), then for every ref  <current|-> : <get_peeled|->   refs joined by ',', operations by ' ' *)
+let peel_run table n ops =
+  let tbl = Hashtbl.create 8 in
+  if table <> "-" then List.iter (fun kv -> match String.split_on_char '=' kv with
+    | [k; v] -> Hashtbl.replace tbl (int_of_string k) (int_of_string v) | _ -> failwith "peel") (String.split_on_char ',' table);
+  let peel v = let i = int_of_z v in z_of_int (try Hashtbl.find tbl i with Not_found -> i) in
+  let names = List.init n nat_of_int in
+  let pair s = match String.split_on_char '=' s with [r; v] -> (nat_of_int (int_of_string r), z_of_int (int_of_string v)) | _ -> failwith "pair" in
+  let parse tok =
+    let rest = String.sub tok 1 (String.length tok - 1) in
+    match tok.[0] with
+    | 's' -> let (r, v) = pair rest in OSet (r, v)
+    | 'd' -> ODelete (nat_of_int (int_of_string rest))
+    | 'a' -> OAddPacked (List.map pair (String.split_on_char ',' rest))
+    | 'p' -> OPackRefs names
+    | 'g' -> OGitPack names
+    | _ -> failwith "op" in
+  let show = function None -> "-" | Some v -> string_of_int (int_of_z v) in
+  let st = ref peel_empty and out = ref [] in
+  List.iter (fun tok ->
+    let o = parse tok in
+    let plain = peel_plainb peel !st o in
+    st := peel_step peel !st o;
+    out := ((if plain then "P|" else "N|") ^ String.concat "," (List.map (fun r -> show (peel_current !st r) ^ ":" ^ show (peel_get !st r)) names)) :: !out)
+    (String.split_on_char ';' ops);
+  String.concat " " (List.rev !out)
+
 let handle = function
+  | ["peel"; table; n; ops] -> peel_run table (int_of_string n) ops
   | ["lcas"; dag; stamps; c1; c2s] ->
       let d = parse_dag dag in
       let n = Array.length d in
